@@ -726,7 +726,7 @@ def drop_unused_ops(case):
     case["ops"] = {k: v for k, v in case["ops"].items() if k in used}
     return case
 
-def shrink(ctx, case, budget=14):
+def shrink(ctx, case, budget=8):
     """greedy: drop points, edges, nodes (with their edges) while the disagreement with Spec persists"""
     import copy
     best = copy.deepcopy(case)
